@@ -176,6 +176,7 @@ func runWire(e *Env) {
 	// are frames like any other (stream -1, every protocol version)
 	ctrl := tp.Chance(1, 4)
 	e.Note("control", ctrl)
+	cl.CompressEvents = respCompress != 0
 	if !ctrl {
 		gocql.VerifDisableControlConn(cfg, true)
 	}
